@@ -63,6 +63,14 @@ func main() {
 		}
 		c.Replay = v.Case
 	}
+	write := func() {
+		res := c.Finish()
+		b, _ := json.Marshal(res)
+		if *out != "" {
+			_ = os.WriteFile(*out, b, 0o644)
+		}
+	}
+	c.OnAbort = write
 	func() {
 		defer func() {
 			if p := recover(); p != nil {
